@@ -111,6 +111,25 @@ def write_replay(pid, kind, payload):
     return os.path.relpath(path, VERIF)
 
 
+# which translated parts of the source a property's model and theorems depend on (tags of
+# harness/translate.py: untranslatable items of other parts do not concern the property)
+ALL_TAGS = {'codec', 'frag', 'bufs', 'enc', 'streamfilter', 'armor', 'cs', 'tag', 'track', 'talker'}
+DEPENDS = {
+    'C01': {'codec', 'armor', 'frag'}, 'C02': {'codec', 'armor', 'frag', 'enc'},
+    'C03': {'frag', 'bufs', 'armor'}, 'C04': {'codec', 'armor', 'frag', 'talker'},
+    'C05': {'codec', 'armor', 'frag', 'bufs', 'streamfilter', 'tag'},
+    'C06': {'frag', 'bufs', 'streamfilter', 'armor'},
+    'C07': {'codec', 'armor', 'frag', 'bufs', 'streamfilter', 'tag'}, 'C08': {'codec'},
+    'C09': {'codec', 'armor', 'frag', 'enc'}, 'C10': {'armor', 'frag', 'talker'},
+    'C11': {'codec', 'armor', 'frag'},
+    'C12': {'codec', 'armor', 'frag', 'track'}, 'C13': {'codec', 'armor', 'frag', 'track'},
+    'C14': {'codec', 'armor', 'frag', 'track'}, 'C15': {'codec', 'armor', 'frag', 'track'},
+    'C16': {'tag', 'frag', 'armor'}, 'C17': {'tag', 'frag', 'bufs', 'armor', 'streamfilter'},
+    'C18': {'frag', 'bufs', 'armor', 'streamfilter'}, 'C19': {'codec', 'armor', 'frag'},
+    'C20': {'cs', 'codec', 'armor'},
+}
+
+
 def generic_search(prop, ctx, pid):
     """failing-input search for properties without a directed one: the run's own generators and
     oracles once more, implementation only, with other seeds"""
@@ -167,9 +186,10 @@ def run_check(pid, tier, replay=None):
     # 1. regenerate + build ------------------------------------------------------------------
     info = common.ensure_built()
     broken = []          # names of theorems / correspondences that no longer check
-    if info.get('untranslatable'):
-        broken.append({'kind': 'translator', 'name': 'Generated.untranslatable = []',
-                       'detail': info['untranslatable']})
+    relevant = [u for u in info.get('untranslatable') or []
+                if u.split(']')[0].lstrip('[') in DEPENDS.get(pid, ALL_TAGS)]
+    if relevant:
+        broken.append({'kind': 'translator', 'name': 'Generated.untranslatable = []', 'detail': relevant})
     model_available = info['build_ok'] and os.path.exists(common.DRIVER)
     if not info['build_ok']:
         broken.append({'kind': 'build', 'name': 'lake build (model + generated tables)',
@@ -205,7 +225,7 @@ def run_check(pid, tier, replay=None):
                 broken.append({'kind': 'leanchecker', 'name': 'leanchecker ' + f, 'detail': rc['detail']})
 
     # 3. correspondence + oracle on the implementation ----------------------------------------
-    ctx = Ctx(pid, tier, seed, model_available, bool(info.get('untranslatable')))
+    ctx = Ctx(pid, tier, seed, model_available, bool(relevant))
     prop.run(ctx)
     for d in ctx.disagreements[:50]:
         broken.append({'kind': 'correspondence', 'name': 'model.%s vs pyais' % d['command'], 'detail': d})
